@@ -1242,7 +1242,7 @@ pub(crate) fn format_trait(
             && last_line_width(&result) + where_clause_str.len() + offset.width()
                 > context.config.comment_width()
         {
-            let width = offset.block_indent + context.config.tab_spaces() - 1;
+            let width = (offset.block_indent + context.config.tab_spaces()).saturating_sub(1);
             let where_indent = Indent::new(0, width);
             result.push_str(&where_indent.to_string_with_newline(context.config));
         }
@@ -1672,7 +1672,8 @@ fn format_tuple_struct(
         // know that earlier, so the where-clause will not be indented properly.
         result.push('\n');
         result.push_str(
-            &(offset.block_only() + (context.config.tab_spaces() - 1)).to_string(context.config),
+            &(offset.block_only() + context.config.tab_spaces().saturating_sub(1))
+                .to_string(context.config),
         );
     }
     result.push_str(&where_clause_str);
